@@ -568,3 +568,7 @@ M("join1-loop-wrong-slot", "C01", LL, "    ret = [\n        replace(\n          
 # ---------------------------------------------------------------- MODE-4
 M("mode4-provisional-false", "C02", LL, "        _can_use_trickery = sys.implementation.name == \"cpython\" or (", "        _can_use_trickery = False\n        _supported = sys.implementation.name == \"cpython\" or (", ["MODE-4"], accept_analysis_error=True,
   extra=[("        if _can_use_trickery:\n            from contextlib import contextmanager", "        if _supported:\n            from contextlib import contextmanager"), ("                traceback.print_exc()\n                _can_use_trickery = False\n", "                traceback.print_exc()\n            else:\n                _can_use_trickery = True\n")])
+
+# ---------------------------------------------------------------- SLC-6
+M("slc6-walk-ends-at-dead-greenlet", "C04", GL, "        while greenlet is not None:\n            while current is not None:\n                this_thread_frames.append(current)\n                current = current.f_back\n            greenlet = greenlet.parent\n            if greenlet is not None:\n                current = greenlet.gr_frame\n",
+  "        while current is not None:\n            this_thread_frames.append(current)\n            current = current.f_back\n            if current is None and greenlet.parent is not None:\n                greenlet = greenlet.parent\n                current = greenlet.gr_frame\n", "SLC-6")
